@@ -200,7 +200,7 @@ pub fn init_symbol(interp: &mut Interpreter) {
     interp
         .symbol_prototype
         .borrow_mut()
-        .set_property(constructor_key, JsValue::Object(symbol_fn.clone()));
+        .define_builtin_property(constructor_key, JsValue::Object(symbol_fn.clone()));
 
     // Register globally
     let symbol_key = PropertyKey::String(interp.intern("Symbol"));
